@@ -28,6 +28,10 @@ def run(ctx):
     F.f9_process_queue(ctx)
     F.f10_function_counts(ctx)
     F.f11_readers(ctx)
+    F.f12_gap_search(ctx)
+    F.f13_database_insertion(ctx)
+    ctx.floor("F12", 5)
+    ctx.floor("F13", 2)
     ctx.floor("F1", 7)
     ctx.floor("F2", 4)
     ctx.floor("F3", 3)
